@@ -179,8 +179,8 @@ def norm (O : Oracles) : FieldDecl → PyVal → PyVal
   | .integer _, v => v
   | .string _ _ _, v => v
   | .enumLit _, v => v
-  | .oneOf fs, v => normAny O fs v
-  | .allOf fs, v => normFirst O fs v
+  | .oneOf _, v => v
+  | .allOf _, v => v
   | .notF _, v => v
   | .noneF, v => v
   | .anything, v => v
@@ -213,13 +213,7 @@ def countAdmits (O : Oracles) : List FieldDecl → PyVal → Nat
   | f :: fs, v => (if admits O f v then 1 else 0) + countAdmits O fs v
 termination_by structural fs _ => fs
 
-/-- `AllOf` keeps the normal form of its first option -/
-def normFirst (O : Oracles) : List FieldDecl → PyVal → PyVal
-  | [], v => v
-  | f :: _, v => norm O f v
-termination_by structural fs _ => fs
-
-/-- `AnyOf` (and `OneOf`, whose matching option is unique) keeps the normal form of the first admitting option -/
+/-- `AnyOf` keeps the normal form of the first admitting option -/
 def normAny (O : Oracles) : List FieldDecl → PyVal → PyVal
   | [], v => v
   | f :: fs, v => if admits O f v then norm O f v else normAny O fs v
